@@ -163,7 +163,14 @@ ApplyAllowed(i, b) ==
     [] i.op = "unregister" -> Live(i.s) /\ Commit(UnregisterFx(Cur, i.s, i.req, i.id))
     [] i.op = "call" ->
          /\ Live(i.s)
-         /\ IF BestRegs(Cur, i.uri) = {}
+         /\ IF InProgress(Cur, <<i.s, i.req>>) /\ BestRegs(Cur, i.uri) # {}
+            THEN \E k \in BestRegs(Cur, i.uri) :
+                   /\ b.reg # 0 => regs[k].id = b.reg
+                   /\ Commit(ChunkFx(Cur, i.s, i.req, i.uri, i.o, i.tag, k))
+            ELSE IF ~InProgress(Cur, <<i.s, i.req>>) /\ BestRegs(Cur, i.uri) # {} /\ i.o.prog /\ ~Has(Cur, i.s, "caller:progressive_call_invocations")
+            THEN \* using a feature it did not announce: ABORT, the session ends
+                 Commit(LeaveFx(Cur, i.s, "violation", ""))
+            ELSE IF BestRegs(Cur, i.uri) = {}
             THEN Commit(CallFx(Cur, i.s, i.req, i.uri, i.o, i.tag, <<>>, "", 0))
             ELSE \E k \in BestRegs(Cur, i.uri) : \E callee \in Eligible(regs[k]) :
                    /\ b.reg # 0 => regs[k].id = b.reg
